@@ -24,7 +24,8 @@ LEVEL_TEXT = ("For random SPD covariances (cond 1..1e8, integer matrices, p<=8) 
               "incoming weights, the noise mean and the noise variance.")
 LEVEL_NOTE = "Trusted: Fraction arithmetic; literal intervention semantics of vf.oracles.exact.intervene. cond-scaled tolerances (1e3*eps*cond)."
 RULE = ("cases: (mean, covariance, y, S) and (LGANM, interventions, variable).  distinct = distinct canonical case; non-trivial = "
-        "|S| >= 1 and S != {y} for distributions; a variable with >= 1 parent for LGANMs")
+        "|S| >= 1 and S != {y} for distributions; a variable with >= 1 parent for LGANMs"
+        ' Also: badly scaled variables (gross-error regime), models in other units, int8/int16/int32/float32/bool weight matrices, S as int32/int16/uint8 arrays, the same object asked again after new means were assigned to it.')
 ASSUMPTIONS = ["C_SS non-singular with 1e3*eps*cond(C_SS) <= 1e-4, else the case is counted too_ill_conditioned",
                "LGANM link judged only for noise variances >= 0.05 after intervention and cond(I-W^T) small enough"]
 EXHAUSTIVE = {"quick": False, "thorough": False}
